@@ -381,6 +381,179 @@ def one_history(ctx, hseed):
     return result
 
 
+# ----------------------------------------------------------------------------- (c) twin projects
+CRLF_FILES = False   # switched on once the stale-newlines defect (found by the C16 check) is repaired
+
+
+def _abs_lists(project):
+    return ([abstract(c) for c in project.history.undo_list], [abstract(c) for c in project.history.redo_list])
+
+
+def twin_history(ctx, hseed):
+    """Project A is closed and reopened between sessions (and synced in mid-session); project B receives the
+    same operations and is never closed. After every reopen A must have B's lists, dependency closures,
+    object information; every later undo/redo/selective undo must produce the same tree in both."""
+    import random
+    from rope.base.project import Project
+    from rope.base import change as ch
+    from harness.c12 import strict_eq
+    rng = random.Random("twin-%d-%d" % (ctx.seed, hseed))
+    ra = tempfile.mkdtemp(prefix="ropeverif-c12a-")
+    rb = tempfile.mkdtemp(prefix="ropeverif-c12b-")
+    rp = {"kind": "twin", "hseed": hseed, "base_seed": ctx.seed, "ops": []}
+    limit = rng.choice([2, 3, 100, 100, 100])
+    kw = dict(save_history=True, save_objectdb=True, max_history_items=limit)
+    A = Project(ra, **kw)
+    B = Project(rb, **kw)
+    counter = [0]
+
+    def fresh(prefix, suffix=""):
+        counter[0] += 1
+        return "%s%d%s" % (prefix, counter[0], suffix)
+
+    def both(fn):
+        ea = eb = None
+        try:
+            fn(A)
+        except Exception as e:  # noqa
+            ea = type(e).__name__
+        try:
+            fn(B)
+        except Exception as e:  # noqa
+            eb = type(e).__name__
+        return ea, eb
+
+    def compare(phase):
+        if snapshot(ra) != snapshot(rb):
+            ctx.violation(dict(rp, phase=phase, what="tree"), "C12 twin: project that was closed/reopened has a different tree from the never-closed control (%s)" % phase)
+            return False
+        la, lb = _abs_lists(A), _abs_lists(B)
+        if la != lb:
+            ctx.violation(dict(rp, phase=phase, what="lists", reopened=la, control=lb),
+                          "C12 twin: undo/redo lists of the reopened project differ from the never-closed control (%s)" % phase)
+            return False
+        da = (dep_indices(A.history, A.history.undo_list), dep_indices(A.history, A.history.redo_list))
+        db = (dep_indices(B.history, B.history.undo_list), dep_indices(B.history, B.history.redo_list))
+        if da != db:
+            ctx.violation(dict(rp, phase=phase, what="dependencies", reopened=da, control=db),
+                          "C12 twin: dependency closures differ from the never-closed control (%s)" % phase)
+            return False
+        return True
+
+    try:
+        nsessions = rng.randint(2, 3)
+        for sess in range(nsessions):
+            nops = rng.randint(2, 7)
+            for _ in range(nops):
+                files = sorted(r.path for r in A.get_files() if not r.path.startswith(".ropeproject"))
+                folders = [""] + sorted(f.path for f in _all_folders(A))
+                k = rng.random()
+                op = None
+                if k < 0.22 and files:
+                    path = rng.choice(files)
+                    add = rng.choice(["x = 1\n", "# é\n", "y = x\n"])
+                    op = ("edit", path, add)
+                    fn = lambda P: P.do(ch.ChangeContents(P.get_file(path), P.get_file(path).read() + add))
+                elif k < 0.34 or not files:
+                    parent, name = rng.choice(folders), fresh("f", ".py")
+                    op = ("create_file", parent, name)
+                    fn = lambda P: P.do(ch.CreateFile(P.get_folder(parent), name))
+                elif k < 0.42:
+                    parent, name = rng.choice(folders), fresh("d")
+                    op = ("create_folder", parent, name)
+                    fn = lambda P: P.do(ch.CreateFolder(P.get_folder(parent), name))
+                elif k < 0.50:
+                    path, dest = rng.choice(files), rng.choice(folders)
+                    newp = (dest + "/" if dest else "") + fresh("m", ".py")
+                    op = ("move_file", path, newp)
+                    fn = lambda P: P.do(ch.MoveResource(P.get_file(path), newp, exact=True))
+                elif k < 0.58 and len(folders) > 1:
+                    d = rng.choice(folders[1:])
+                    cands = [x for x in folders if not (x == d or x.startswith(d + "/"))]
+                    dest = rng.choice(cands)
+                    newp = (dest + "/" if dest else "") + fresh("r")
+                    op = ("move_folder", d, newp)
+                    fn = lambda P: P.do(ch.MoveResource(P.get_folder(d), newp, exact=True))
+                elif k < 0.66:
+                    op = ("undo",)
+                    fn = lambda P: P.history.undo()
+                elif k < 0.72:
+                    op = ("redo",)
+                    fn = lambda P: P.history.redo()
+                elif k < 0.77:
+                    op = ("undo_drop",)
+                    fn = lambda P: P.history.undo(drop=True)
+                elif k < 0.80:
+                    op = ("drop_all",)
+
+                    def fn(P):
+                        while P.history.undo_list:
+                            P.history.undo(drop=True)
+                elif k < 0.82:
+                    op = ("clear",)
+                    fn = lambda P: P.history.clear()
+                elif k < 0.88 and len(A.history.undo_list) > 1:
+                    i = rng.randrange(len(A.history.undo_list))
+                    op = ("selective_undo", i)
+                    fn = lambda P: P.history.undo(P.history.undo_list[i])
+                elif k < 0.95 and files:
+                    path = rng.choice(files)
+                    src = ("def f(a, b=1):\n    return (a, b)\n\nclass C:\n    def m(self, x):\n        return [x]\n\n"
+                           "r1 = f(%d)\nr2 = f('s', b=C())\nr3 = C().m({1: {2: 'x'}})\n" % counter[0])
+                    op = ("analyze", path)
+
+                    def fn(P):
+                        P.do(ch.ChangeContents(P.get_file(path), src))
+                        P.pycore.analyze_module(P.get_file(path))
+                else:
+                    op = ("sync",)
+                    fn = lambda P: P.sync()
+                rp["ops"].append(op)
+                ctx.count("twin_op:" + op[0])
+                ea, eb = both(fn)
+                if ea != eb:
+                    ctx.violation(dict(rp, phase="op", errors=[ea, eb]),
+                                  "C12 twin: operation %r raises %r in the reopened project but %r in the control" % (op, ea, eb))
+                    return
+                if not compare("after %r in session %d" % (op, sess)):
+                    return
+            # session boundary: only A is closed and reopened
+            odb_b = objdb_plain(B)
+            for _ in range(rng.randint(1, 2)):
+                A.close()
+                A = Project(ra, **kw)
+            rp["ops"].append(("close_reopen",))
+            # B's undo list is trimmed only when it is written; mirror History.write's trimming
+            B.history._remove_extra_items()
+            if not compare("after reopen %d" % sess):
+                return
+            odb_a = objdb_plain(A)
+            if not strict_eq(odb_a, odb_b) and odb_a != odb_b:
+                ctx.violation(dict(rp, phase="objectdb", reopened=repr(odb_a)[:1500], control=repr(odb_b)[:1500]),
+                              "C12 twin: object information after reopen differs from what the never-closed control holds")
+                return
+        # wind the whole history back and forth in both
+        steps = 0
+        while A.history.undo_list and steps < 60:
+            both(lambda P: P.history.undo())
+            steps += 1
+            if not compare("final undo %d" % steps):
+                return
+        while A.history.redo_list and steps < 120:
+            both(lambda P: P.history.redo())
+            steps += 1
+            if not compare("final redo %d" % steps):
+                return
+    finally:
+        for P in (A, B):
+            try:
+                P.close()
+            except Exception:
+                pass
+        shutil.rmtree(ra, ignore_errors=True)
+        shutil.rmtree(rb, ignore_errors=True)
+
+
 def objdb_plain(project):
     db = project.pycore.object_info.objectdb.files
     res = {}
@@ -429,6 +602,15 @@ def run(ctx):
                            "broken": "correspondence PersistRunner.run_hcase (Persist.close/reopen vs History.write/_load_history); theorem C12_reopen_lists no longer speaks about the code"},
                           "C12 history: model close/reopen disagrees with the implementation", no_input=True)
     ctx.extra["persist_histories"] = len(hcases)
+    nt = ctx.scale(40, 400)
+    for h in range(nt):
+        before = len(ctx.violations)
+        twin_history(ctx, h)
+        ctx.case(("twin", h), nontrivial=True)
+        ctx.traces += 1
+        if ctx.too_many():
+            return
+    ctx.extra["persist_twin_histories"] = nt
     # every stored ScopeInfo state goes through the serializer correspondence (version 2, as __getstate__ does)
     if objvals:
         from harness import c12
@@ -480,6 +662,11 @@ def replay(ctx, obj):
             return bad
         finally:
             shutil.rmtree(root, ignore_errors=True)
+    if obj.get("kind") == "twin":
+        sub = type(ctx)(ctx.prop, ctx.tier, obj.get("base_seed", 0), replay_only=True)
+        sub.findings = []
+        twin_history(sub, obj["hseed"])
+        return bool(sub.violations)
     if obj.get("kind") == "history":
         sub = type(ctx)(ctx.prop, ctx.tier, obj.get("base_seed", 0), replay_only=True)
         sub.findings = []
